@@ -143,12 +143,18 @@ def check_interior(n, k, s, path):
             return None
         lo, hi = n.pos + len(d[0]), n.pos_end - len(d[1])
         body = [c for c in (n.nodelist or []) if c is not None]
+        # comma-separated list arguments (LatexCharsCommaSeparatedListParser): the children are element groups with
+        # delimiters ('', ',') and, unless keep_empty_parts is set, empty elements are documented to be left out --
+        # the only text such a group may hold outside its children is the separators of those empty elements
+        comma_list = all(canon.kind(c) == 'group' and c.delimiters is not None and c.delimiters[0] == '' for c in body)
         cur = lo
         for c in body:
-            if c.pos != cur:
+            if c.pos != cur and not (comma_list and c.pos > cur and set(s[cur:c.pos]) <= set(',')):
                 return '%s: %s body is not contiguous: child at %d, expected %d (covers %r)' % (
                     path, k, c.pos, cur, s[n.pos:n.pos_end])
             cur = c.pos_end
+        if cur != hi and comma_list and cur < hi and set(s[cur:hi]) <= set(','):
+            cur = hi
         if cur != hi:
             return '%s: %s body ends at %d but the closing delimiter starts at %d (covers %r)' % (
                 path, k, cur, hi, s[n.pos:n.pos_end])
